@@ -4,6 +4,7 @@ import (
 	"crypto/sha256"
 	"encoding/json"
 	"fmt"
+	"hash/fnv"
 	"os"
 	"os/exec"
 	"path/filepath"
@@ -459,6 +460,12 @@ func rigDeterminism(r *Reporter) {
 	r.Cov["rig_schedules_run_three_times"] = n
 }
 
+func fnv32(s string) uint32 {
+	h := fnv.New32a()
+	h.Write([]byte(s))
+	return h.Sum32()
+}
+
 type detKey struct {
 	cycles int
 	out    string
@@ -523,6 +530,9 @@ func detRun(r *Reporter, fams []famRun) {
 		st := streamCases(r, o, 16, func(c *ProgCase) {
 			if c.Exp.Status == "err" {
 				return
+			}
+			if tier == "quick" && c.Fam == "RegDep" && fnv32(c.Key())%3 != 0 {
+				return // quick tier: a third of the (large) RegDep family, chosen by a hash of the case
 			}
 			r.Eval(c.Key(), c.Exp.N >= 3)
 			r.Sample(map[string]any{"family": c.Fam, "program": oneLine(c.Prog), "regs0": c.Regs0})
